@@ -36,6 +36,7 @@ def must_see(tier):
          'path-node-was-ghost-at-write': 100}
     for s in SCENARIOS:
         m['scenario:' + s] = 5
+    m['third-transaction'] = 200
     return m
 
 
@@ -272,13 +273,15 @@ def run_schedule(fam, kind, impl, rng, rec, idx):
     desc = dict(family=fam.name, kind=kind, impl=impl, sizes=sizes,
                 scenario=scen, base_leaves=brief(w0.leaf_keys, 400))
     txs = []
-    for t in range(2):
+    three = idx % 5 in (1, 3)          # a third concurrent transaction
+    roles3 = roles + [rng.randrange(2)]
+    for t in range(3 if three else 2):
         conn = minidb.Connection(storage, impl)
         tree = conn.get(root_oid)
         import random as _random
         ops = gen_tx(fam, kind,
                      _random.Random(scen_seed) if scen == 'same-key' else rng,
-                     scen, roles[t], w0, set(base._keys()), uni, vals,
+                     scen, roles3[t], w0, set(base._keys()), uni, vals,
                      sizes[0])
         model = base.copy()
         # a few pure reads first: they must not declare dependencies
@@ -357,7 +360,9 @@ def run_schedule(fam, kind, impl, rng, rec, idx):
         rec.ev('f22-shape-in-transaction')
     rec.ev('scenario:' + scen)
     rec.evaluations += 1
-    B, C = txs
+    if three and len(txs) < 3:
+        three = False
+    B, C = txs[:2]
     try:
         B['conn'].commit()
     except minidb.ConflictError as e:
@@ -430,5 +435,72 @@ def run_schedule(fam, kind, impl, rng, rec, idx):
                       acceptable=[brief(w_, 400) for w_ in want],
                       base=brief(basec, 400), **info)
         return
+    # ---- a third transaction, started from the same base, commits last --
+    if three and not f22 and not txs[2]['inline']:
+        E = txs[2]
+        rec.ev('third-transaction')
+        committed = got
+        cdict = dict(committed) if is_mapping else {k: None for k in committed}
+        try:
+            E['conn'].commit()
+            outcome3 = 'merged' if E['conn'].last_resolved \
+                else 'serial-no-merge'
+        except minidb.ConflictError as e:
+            outcome3 = 'read-conflict' if e.kind == 'read' else \
+                'conflict:%s' % (e.reason,)
+            if e.kind != 'read' and e.reason is None:
+                rec.violation('conflict-resolution-raised-other',
+                              detail=brief(e.detail, 300),
+                              e_ops=brief(E['ops']), **desc)
+                return
+        rec.ev('outcome3:' + outcome3)
+        rec.seen(impl, kind, scen, 'third', outcome3)
+        connF = minidb.Connection(storage, impl)
+        connF.log_events = False
+        f = connF.get(root_oid)
+        info3 = dict(info, e_ops=brief(E['ops'], 300), outcome3=outcome3,
+                     committed_before=brief(committed, 300))
+        try:
+            got3 = harness.contents(f, is_mapping)
+            serrs3, _w3 = hist.structural_checks(f, is_mapping, sizes=False)
+        except Exception as e:
+            rec.violation('stored-tree-damaged', errors=[(
+                'contents-raised', '%s: %s' % (type(e).__name__, e))],
+                **info3)
+            return
+        if serrs3:
+            rec.violation('stored-tree-damaged', errors=serrs3[:3], **info3)
+            return
+        if outcome3.startswith(('conflict', 'read-conflict')):
+            want3 = [committed]
+        else:
+            serial = RefMap(fam) if is_mapping else RefSet(fam)
+            if is_mapping:
+                serial.d = dict(cdict)
+            else:
+                serial.s = set(cdict)
+            for op, args in E['ops']:
+                margs = tuple(gen.materialize(a_, fam, impl, serial, True)
+                              for a_ in args)
+                call(serial, op, margs)
+            want3 = [serial.contents()]
+            bd, Ed = as_dict(base), as_dict(E['model'])
+            te = net_changes(bd, Ed)
+            tprev = net_changes(bd, cdict)
+            if not (te & tprev):
+                m = dict(cdict)
+                for k in te:
+                    if k in Ed:
+                        m[k] = Ed[k]
+                    else:
+                        m.pop(k, None)
+                ks = sort_keys(list(m))
+                want3.append([(k, m[k]) for k in ks] if is_mapping else ks)
+        if not any(eq(got3, w_) for w_ in want3):
+            rec.violation('stored-contents-neither-serial-nor-merge',
+                          observed=brief(got3, 400),
+                          acceptable=[brief(w_, 400) for w_ in want3],
+                          base=brief(basec, 400), **info3)
+            return
     if idx % 97 == 0:
         rec.sample(dict(info, stored=brief(got, 200)))
